@@ -375,7 +375,9 @@ pub fn run_history(hist: &Value, out: &mut dyn Write) {
         let shown: Vec<i64> = calls.as_array().unwrap().iter().rev()
             .filter(|c| c["k"] == "str" && c["u"] == 0)
             .map(|c| c["c"].as_array().unwrap().iter().map(|x| x.as_i64().unwrap()).collect::<Vec<i64>>())
-            .find(|c| c.iter().any(|g| *g != 32)).unwrap_or_default();
+            .find(|c| c.iter().any(|g| *g != 32))
+            .map(|mut c| { while c.last() == Some(&32) { c.pop(); } c })     // behind a real Term the right-edge filler arrives in the same write
+            .unwrap_or_default();
         let mut rec = op.as_object().cloned().unwrap_or_default();
         rec.insert("frac".into(), json!(frac));
         rec.insert("shown".into(), json!(shown));
